@@ -1,7 +1,7 @@
 (* C18 - measurement primitives compute what they name, reset cleanly, report changes. *)
 From Coq Require Import ZArith List Bool Permutation Reals.
 From Flocq Require Import Core BinarySingleNaN.
-From GCL Require Import Base.F64 Base.F64Facts Model.Measure Proofs.MeasureProofs Proofs.HullPow2.
+From GCL Require Import Base.F64 Base.F64Facts Model.Measure Proofs.MeasureProofs Proofs.HullPow2 Proofs.HullNear.
 Import ListNotations.
 
 (* minimum of the samples since reset (positive finite samples, any number of them) *)
@@ -82,3 +82,28 @@ Theorem C18_variance_nonneg k xs m : (0 <= k <= 499)%Z -> VarInv k m -> Forall (
   VarInv k m' /\ fin (smv_get m') = true /\ (0 <= R (smv_get m') <= bpow radix2 (2 * k))%R.
 Proof. exact (variance_nonneg k xs m). Qed.
 Print Assumptions C18_variance_nonneg.
+
+(* The hull of the samples themselves, [lo, hi] with 1 <= lo <= hi <= 2^900 arbitrary reals.  To the last bit it does NOT hold in binary64: the
+   weights round(1 - f) + f can exceed 1, and value*(1-f) + sample*f then lands an ulp outside [lo, hi].  What holds for every sample sequence
+   of any length is a band that does not widen with the length: from a fresh measurement on (warm-up 1..window samples, window < 2^20), after
+   every Add, the value lies in [lo (1 - 4u/f), hi (1 + 4u/f)] with u = 2^-53 and f = 2/(window+1) as computed - an excursion is pulled back by
+   the factor f faster than the three roundings of a step can push it out; during warm-up the mean of K samples is within (1.02 K + 2) u. *)
+Theorem C18_expavg_band lo hi xs m : (1 <= lo <= hi)%R -> (hi <= bpow radix2 900)%R -> FInv lo hi m ->
+  Forall (fun x => fin x = true /\ (lo <= R x <= hi)%R) xs -> FInv lo hi (fold_left ea_add xs m).
+Proof. exact (expavg_band lo hi xs m). Qed.
+Print Assumptions C18_expavg_band.
+
+Example C18_expavg_band_fresh lo hi w wu : (1 <= w < 2^20)%Z -> (1 <= wu <= w)%Z -> FInv lo hi (ea_new w wu).
+Proof. exact (ea_new_finv lo hi w wu). Qed.
+
+(* the steady-state step alone (any window < 2^31, any state in the band), and the same for the simple exponential moving average *)
+Theorem C18_expavg_band_steady lo hi xs m : (1 <= lo <= hi)%R -> (hi <= bpow radix2 900)%R -> NInv lo hi m ->
+  Forall (fun x => fin x = true /\ (lo <= R x <= hi)%R) xs -> NInv lo hi (fold_left ea_add xs m).
+Proof. exact (expavg_near_hull lo hi xs m). Qed.
+Print Assumptions C18_expavg_band_steady.
+Theorem C18_moving_average_band lo hi xs m : (1 <= lo <= hi)%R -> (hi <= bpow radix2 900)%R -> SNInv lo hi m ->
+  Forall (fun x => fin x = true /\ (lo <= R x <= hi)%R) xs -> SNInv lo hi (fold_left (fun m x => fst (sema_add m x)) xs m).
+Proof. exact (sema_near_hull lo hi xs m). Qed.
+Print Assumptions C18_moving_average_band.
+Example C18_band_nonvacuous lo hi f v : (1 <= lo <= hi)%R -> (/ 1073741824 <= f <= 1)%R -> fin v = true -> (lo <= R v <= hi)%R -> near lo hi f v.
+Proof. exact (near_of_inside lo hi f v). Qed.
